@@ -161,8 +161,9 @@ fn sized_program(globals: usize, cards: usize) -> Module {
         main.push(sv("x", bin(BinOp::Add, int(i as i64), int(1))));
     }
     // an error late in the program, so that the run needs the decoded trace and labels
-    main.push(sg("res", call("f", vec![int(1)])));
-    main.push(sg("bad", native("no_such_native", vec![])));
+    // (bound to locals: the program has exactly `globals` global variables, 0 included)
+    main.push(sv("res", call("f", vec![int(1)])));
+    main.push(sv("bad", native("no_such_native", vec![])));
     module(vec![("main", func(&[], main)), ("f", func(&["p"], vec![C::Return(b(rv("p")))]))])
 }
 
